@@ -1027,9 +1027,16 @@ impl Entry {
                     .filter_map(|c| c.as_token().map(|t| t.text()))
                     .collect::<String>();
                 let formatted = format_value(self.key().as_ref().unwrap(), &concat);
-                crate::lex::lex_inline(&formatted)
-                    .map(|(k, t)| (k, t.to_string()))
-                    .collect::<Vec<_>>()
+                // lex line by line: after a line break the lexer would otherwise expect
+                // a field name and turn the next value line into a KEY token
+                let mut tokens = vec![];
+                for (i, line) in formatted.split('\n').enumerate() {
+                    if i > 0 {
+                        tokens.push((NEWLINE, "\n".to_string()));
+                    }
+                    tokens.extend(crate::lex::lex_inline(line).map(|(k, t)| (k, t.to_string())));
+                }
+                tokens
             } else {
                 content
                     .into_iter()
